@@ -278,8 +278,9 @@ theorem packed_image (v : Nat) (hv : v ≤ u32Max) : ∀ (T : Ty) (x : V) (mem :
     | _ => simp [MemOK] at hm
   | .wrap c t, x, mem, wv, bs, hp, hd, hw, hm, hproj, henc => by
     cases c with
-    | false => simp [isPacked] at hp
-    | true =>
+    | boxed => simp [isPacked] at hp
+    | plain => simp [isPacked] at hp
+    | cell =>
       simp only [isPacked] at hp
       simp only [d2Free] at hd
       simp only [wfLay] at hw
@@ -423,8 +424,8 @@ theorem packed_image (v : Nat) (hv : v ≤ u32Max) : ∀ (T : Ty) (x : V) (mem :
           · cases henc
       | _ => simp [MemOK] at hm
     | _ => simp [MemOK] at hm
-  | .str _, _, _, _, _, hp, _, _, _, _, _ | .seq _ _, _, _, _, _, hp, _, _, _, _, _
-  | .map _ _, _, _, _, _, hp, _, _, _, _, _ | .opt _, _, _, _, _, hp, _, _, _, _, _
+  | .str _ _, _, _, _, _, hp, _, _, _, _, _ | .seq _ _, _, _, _, _, hp, _, _, _, _, _
+  | .map _ _ _, _, _, _, _, hp, _, _, _, _, _ | .opt _, _, _, _, _, hp, _, _, _, _, _
   | .res _ _, _, _, _, _, hp, _, _, _, _, _ | .ip, _, _, _, _, hp, _, _, _, _, _
   | .sock, _, _, _, _, hp, _, _, _, _, _ | .canary, _, _, _, _, hp, _, _, _, _, _
   | .sysTime, _, _, _, _, hp, _, _, _, _, _ | .duration, _, _, _, _, hp, _, _, _, _, _
